@@ -644,9 +644,6 @@ fn minimise_in_child(prop: &str, plan: &Value, class: &str, dir: &Path) -> (Valu
 
 /// Re-run a plan in a fresh process; true iff it fails with `class`.
 pub fn confirm_in_child(prop: &str, plan: &Value, class: &str, dir: &Path) -> bool {
-    if class == "process-death" || class == "hang" {
-        return true;
-    }
     let f = dir.join("confirm.json");
     if std::fs::write(&f, serde_json::to_vec(&json!({"property": prop, "violation": {"class": class}, "plan": plan})).unwrap()).is_err() {
         return false;
